@@ -7,7 +7,7 @@ TU = ["targets/c15_kernels_tu.c"]      # exports the static-inline portable kern
 # replay each call a real encoder makes at arch cap 0 on every SIMD version
 WRAP_COMMON = ("-Wl,--wrap=silk_VAD_GetSA_Q8_c", "-Wl,--wrap=silk_VQ_WMat_EC_c", "-Wl,--wrap=silk_NSQ_c", "-Wl,--wrap=silk_NSQ_del_dec_c")
 WRAP_FIX = WRAP_COMMON + ("-Wl,--wrap=silk_burg_modified_c",)
-# observers for the classes of the known deviations F21 / F22 in the whole-codec target
+# observers for the classes of the known deviations C15F1 / C15F2 in the whole-codec target
 WRAP_CODEC = ("-Wl,--wrap=silk_NSQ_del_dec_avx2", "-Wl,--wrap=celt_fir_sse4_1", "-Wl,--wrap=abort")
 
 LEVELS = ["c", "sse", "sse2", "sse4_1", "avx2"]
@@ -125,7 +125,7 @@ PROP = dict(
         "xcorr_kernel len >= 4 in the fixed build (every call site; the SSE4.1 version loads x[len-4]). Outside it the C code is undefined and UBSan would abort.",
         "The float build's PCM clause (1e-4 of full scale; largest seen 1e-6) is asserted only for streams in which the decoder never conceals: no change of coding "
         "mode and no frame of <= 1 byte; concealment (pitch search + recursive filters in float) is not bounded by a fixed small number. Final ranges are compared always.",
-        "Known deviations excluded as observable classes: F21 (celt_fir_sse4_1 saturates at -32768, celt_fir_c at -32767) and F22 (silk_NSQ_del_dec_avx2 differs from "
+        "Known deviations excluded as observable classes: C15F1 (celt_fir_sse4_1 saturates at -32768, celt_fir_c at -32767) and C15F2 (silk_NSQ_del_dec_avx2 differs from "
         "the C code when the quantiser state has run away and its reconstructed output saturates: 64-bit product in silk_sar_round_smulww - switched to the C "
         "formula only under OPUS_CHECK_ASM - and a wrapping rounding shift; in the OPUS_CHECK_ASM builds the kernel's own self-check abort is intercepted for exactly "
         "that class and the encoder continues with the portable result).",
